@@ -27,7 +27,7 @@ CLAIMED = {
  "C11": dict(engine="store", technique="TLC model checking (M_C11_*) + TLC trace validation (T_C11_*) on Buffer and Fleet edges driven through the exported graph and random histories",
    text="Buffer delay exactness (not before put+delay, offered from then on), can_put/can_get equal to 'a reservation issued now would be granted', occupancy = in transit + ready, delay drawn once per accepted put; checked on the Buffer/Fleet edge objects at every state of the walk.",
    ref="5 C11"),
- "C14": dict(engine="store", technique="TLC model checking of the fleet kind (M_C14_*) + TLC trace validation against the reference activation schedule (T_C14_Avail, T_C14_WaitBound, T_C14_Order)",
+ "C14": dict(engine="store", technique="TLC model checking of the fleet kind (M_C14_*) + TLC trace validation against the reference activation schedule (T_C14_Avail, T_C14_WaitBound, T_C14_Delivered, T_C14_Order)",
    text="Fleet batches: every item becomes available exactly one round trip after the first activation (timer period or capacity trigger) at or after its loading, in loading order, never later than delay + round trip; judged on every recorded event of Fleet edges / FleetStore incl. zero transit, loads during trips and in the departure instant.",
    ref="5 C14"),
  "C03": dict(engine="factory", technique="TLC model checking of Factory.tla (all same-instant interleavings; F_C03_OnePlace/Counts/Quiescent) + the real runs compared with the model's outcome sets at every end of instant + TLC trace validation of recorded real factory runs (Trace_Factory.tla, T_C03_*)",
